@@ -1,6 +1,6 @@
 SPEC_PART = dict(
     props_file="C11_tdigest",
-    legs=[dict(family="tdigest", focus="codec", oracles=["twin_ok", "codec_ok", "tie_ok", "c15_ok"], profiles=["debug", "release"],
+    legs=[dict(family="tdigest", focus="codec", oracles=["twin_ok", "codec_ok", "c15_ok"], tie_oracles=["tie_ok"], profiles=["debug", "release"],
                mask=[0, 1, 7, 8, 9, 10, 14, 15, 17, 19, 21], n_quick=40, n_thorough=200, panic_is_violation=True)],
     trusted=["tdigest: the byte-level codec model (Model/TDigestCodec.v) is written by hand from TDigestMut::serialize/deserialize; it is "
              "tied on every image the crate emits (reader accepts it, writer re-emits it byte for byte) and by the twin oracle"],
